@@ -23,8 +23,14 @@ func SuggestionList(input string, options []string) []string {
 		}
 	}
 
+	// by distance, then by name: a total order, so the result does not depend on the
+	// order of the options (which may come from ranging over a map)
 	sort.Slice(results, func(i, j int) bool {
-		return optionsByDistance[results[i]] < optionsByDistance[results[j]]
+		di, dj := optionsByDistance[results[i]], optionsByDistance[results[j]]
+		if di != dj {
+			return di < dj
+		}
+		return results[i] < results[j]
 	})
 	return results
 }
